@@ -175,14 +175,17 @@ class Gen:
                 body.append(['msg', rid * 1000 + len(body)])
             elif x < 0.86 and 'rand' in self.features:
                 name = rng.choice(['rand', 'rand2', 'linrand', 'bilinrand', 'sum3rand',
-                                   'coin', 'rrand', 'exprand', 'choice'])
+                                   'coin', 'rrand', 'exprand', 'choice', 'shuffle',
+                                   'choices', 'scramble', 'table_rand'])
                 if name in ('rrand', 'exprand'):
                     body.append(['rand', name, 1.0, 10.0] if rng.random() < 0.5
                                 else ['rand', name, 1, 10])
                 elif name == 'coin':
                     body.append(['rand', name, 0.5, None])
-                elif name == 'choice':
+                elif name in ('choice', 'shuffle', 'scramble', 'table_rand'):
                     body.append(['rand', name, [1, 2, 3, 5, 8], None])
+                elif name == 'choices':
+                    body.append(['rand', name, [1, 2, 3, 5, 8], [1, 1, 2, 3, 0.5]])
                 else:
                     body.append(['rand', name, rng.choice([100, 7, 1.0, 2.5]), None])
             elif x < 0.92 and 'cond' in self.features and not free:
@@ -745,7 +748,15 @@ class Run:
             elif op == 'rand':
                 name, a, b = s[1], s[2], s[3]
                 f = getattr(bi, name)
-                v = f(a, b) if b is not None else f(a)
+                if name == 'shuffle':           # in place, returns None
+                    v = list(a)
+                    f(v)
+                elif name == 'choices':
+                    v = f(list(a), list(b), k=3)
+                elif name == 'scramble':
+                    v = list(f(list(a)))
+                else:
+                    v = f(a, b) if b is not None else f(a)
                 self.log.append(('rand', st['rid'], name, v))
             elif op == 'wait':
                 c = s[1]
